@@ -45,6 +45,7 @@ type GenConfig struct {
 	NameStyle   int  // 0 plain, 1 adversarial (C04)
 	Recv        string
 	OptBait     bool // bias to shapes the grammar optimizer rewrites (C09)
+	NoCodePred  bool // no &{} / !{} blocks (bootstrap subset)
 }
 
 // Profile returns the configuration of a named profile.
@@ -91,6 +92,13 @@ func Profile(name string) GenConfig {
 		c.Display = true
 		c.EmptyClass = true
 		c.ICUnsafe = true
+	case "bootsub":
+		// the syntax subset of the hand-written bootstrap front-end: no recovery/throw, no code
+		// predicates, no state blocks
+		c.Code = true
+		c.Display = true
+		c.NoCodePred = true
+		c.Alphabet = Alphabet
 	case "optbait":
 		c.Code = true
 		c.SharedRefs = true
@@ -416,7 +424,7 @@ func (c *gen) seq(depth int, guarded bool) (*Expr, bool) {
 		var sn bool
 		code := c.cfg.Code && !c.noCode
 		switch {
-		case code && c.chance(12, "codepred"):
+		case code && !c.cfg.NoCodePred && c.chance(12, "codepred"):
 			if c.chance(50, "andcode") {
 				s = &Expr{K: KAndCode, ID: c.id()}
 			} else {
